@@ -79,6 +79,21 @@ def main():
             m = re.search(r"(\d+) tests run: (\d+) passed(?:, (\d+) failed)?", o)
             res["suite"] = m.group(0) if m else o[-400:]
             res["suite_ok"] = bool(m) and m.group(1) == m.group(2)
+            if m and not res["suite_ok"]:
+                # tests that compile code in a child cargo are flaky under machine load (seen failing on the unpatched tree
+                # too): re-run exactly the failed ones alone; the suite counts as passing only if each of them then passes
+                failed = sorted(set(re.findall(r"FAIL \[[^\]]*\] (?:\(\S+\) )?(\S+) (\S+)", o)))
+                load_sensitive = {("trustfall_derive::uses", "ui"), ("trustfall_stubgen", "tests::hackernews_schema"),
+                                  ("trustfall_stubgen", "tests::no_edges_schema"), ("trustfall_stubgen", "tests::use_reserved_rust_names_in_schema")}
+                res["suite_failed_first_run"] = ["%s %s" % f for f in failed]
+                if failed and set(failed) <= load_sensitive:
+                    allok = True
+                    for binid, test in failed:
+                        rc, o3 = sh("cargo nextest run --workspace --offline -E 'test(/%s$/)' 2>&1 | tail -5" % test.split("::")[-1].replace("'", ""), cwd=wt, env=env)
+                        if rc != 0 or "passed" not in o3 or "failed" in o3.split("Summary")[-1]:
+                            allok = False
+                    res["suite_ok"] = allok
+                    res["suite"] += " (load-sensitive test(s) %s re-run alone: %s)" % ([f[1] for f in failed], "pass" if allok else "fail")
     except StopIteration:
         old = os.path.join(out, "verify.json")
         if os.path.exists(old):
